@@ -40,7 +40,9 @@ type thr struct {
 	overlapped map[int]bool // op index -> overlapped an instantiation of the same (loader, name) by another goroutine
 	steps      int
 	doneAt     []int
-	windowed   map[int]bool // op index -> the operation parked in the window of a lazily filled cache (lazy.go)
+	windowed   map[int]bool  // op index -> the operation parked in the window of a lazily filled cache (lazy.go)
+	rep        chan report   // the channel of the run that this goroutine belongs to
+	cbOrder    map[int][]int // op index -> the names for which the predicate of a Discover asked the loader, in the order of the calls
 }
 
 // job is one operation of a thread
@@ -57,7 +59,6 @@ type report struct {
 var (
 	gmapLock sync.RWMutex
 	gmap     = map[int64]*thr{}
-	reports  = make(chan report)
 )
 
 func goid() int64 {
@@ -98,16 +99,36 @@ func hookHandler(site string, mu *sync.Mutex) {
 	if strings.HasSuffix(site, ".window") {
 		t.windowed[t.opIdx] = true // this operation found the cache empty and builds the object itself
 	}
+	park(t, site, mu)
+	if site == "instantiate.marked" {
+		t.inParse = true
+	}
+}
+
+func park(t *thr, site string, mu *sync.Mutex) {
 	t.site, t.mu = site, mu
 	if debugSites {
 		fmt.Fprintf(os.Stderr, "  [goroutine %d parks at %s]\n", t.id, site)
 	}
-	reports <- report{t, 0}
+	t.rep <- report{t, 0}
 	<-t.resume
 	t.site, t.mu = "", nil
-	if site == "instantiate.marked" {
-		t.inParse = true
+}
+
+// rwHookHandler: a place between the look-up and the update of a structure guarded by mu (basicLoader.SetEntry:
+// "setentry.after-lookup").  Where mu is held there - by this goroutine: every other goroutine of the program is
+// parked, and the code parks nowhere inside a critical section - the two are one critical section and nothing can
+// come between them: the goroutine goes on.  Where mu is free the code has a window there, and the goroutine parks.
+func rwHookHandler(site string, mu *sync.RWMutex) {
+	t := currentThread()
+	if t == nil || t.quiet || t.inParse || siteFilter != "" {
+		return
 	}
+	if !mu.TryLock() {
+		return
+	}
+	mu.Unlock()
+	park(t, site, nil)
 }
 
 var debugSites = os.Getenv("C13_DEBUG_SITES") != ""
@@ -116,21 +137,26 @@ var debugSites = os.Getenv("C13_DEBUG_SITES") != ""
 // programs of reg.go stop at "resolve.*" only: what a Do resolves and looks at passes through the loaders' points)
 var siteFilter = ""
 
-func installHook() { verifhook.SetHandler(hookHandler) }
+func installHook() {
+	verifhook.SetHandler(hookHandler)
+	verifhook.SetRWHandler(rwHookHandler)
+}
 
 type runResult struct {
-	Results  [][]opRes
-	Parses   []int
-	Sched    []int   // the schedule as executed, including the steps that were no-ops
-	Enabled  [][]int // Enabled[i]: the threads that could move at step i
-	Deadlock bool
-	Hang     string
-	Steps    int
-	Overlap  []map[int]bool
-	World    *world
-	Counts   map[string]int
-	DoneAt   [][]int // DoneAt[t][i]: the schedule step at which operation i of thread t returned
-	Windowed []map[int]bool
+	Results   [][]opRes
+	Parses    []int
+	Sched     []int   // the schedule as executed, including the steps that were no-ops
+	Enabled   [][]int // Enabled[i]: the threads that could move at step i
+	Deadlock  bool
+	Hang      string
+	Steps     int
+	Overlap   []map[int]bool
+	World     *world
+	Counts    map[string]int
+	DoneAt    [][]int // DoneAt[t][i]: the schedule step at which operation i of thread t returned
+	Windowed  []map[int]bool
+	Abandoned string          // the run left the control of the scheduler without being a deadlock (see runJobs)
+	CbOrder   []map[int][]int // CbOrder[t][i]: names for which the predicate of Discover operation i of thread t asked the loader, in call order
 }
 
 // policy picks the thread to run at step i among the enabled ones (never empty); it may also pick a thread that is
@@ -156,6 +182,7 @@ var unfinishedRuns = 0
 const maxUnfinishedRuns = 8
 
 const hangAfter = 6 * time.Second
+const confirmAfter = 2 * time.Second
 
 func stuck() bool { return unfinishedRuns >= maxUnfinishedRuns }
 
@@ -193,7 +220,7 @@ func runSchedule(cfg []ldefT, prog [][]opT, pick policy) *runResult {
 	}
 	rr := runJobs(jobs, pick, before)
 	rr.World = w
-	if !rr.Deadlock && rr.Hang == "" {
+	if !rr.Deadlock && rr.Hang == "" && rr.Abandoned == "" {
 		w.resolve(rr.Results)
 	}
 	rr.Counts = w.parseCounts()
@@ -203,8 +230,9 @@ func runSchedule(cfg []ldefT, prog [][]opT, pick policy) *runResult {
 func runJobs(jobs [][]job, pick policy, before func(t *thr, ths []*thr)) *runResult {
 	rr := &runResult{}
 	ths := make([]*thr, len(jobs))
+	reports := make(chan report) // (of this run: a goroutine left behind by an earlier run reports to that run's channel)
 	for i, js := range jobs {
-		t := &thr{id: i, resume: make(chan struct{}), jobs: js, overlapped: map[int]bool{}, windowed: map[int]bool{}}
+		t := &thr{id: i, resume: make(chan struct{}), jobs: js, overlapped: map[int]bool{}, windowed: map[int]bool{}, rep: reports, cbOrder: map[int][]int{}}
 		ths[i] = t
 		if len(js) == 0 {
 			t.done = true
@@ -234,7 +262,7 @@ func runJobs(jobs [][]job, pick policy, before func(t *thr, ths []*thr)) *runRes
 				if i == len(t.jobs)-1 {
 					t.done = true
 				}
-				reports <- report{t, 1}
+				t.rep <- report{t, 1}
 			}
 		}()
 		<-started
@@ -294,13 +322,44 @@ func runJobs(jobs [][]job, pick policy, before func(t *thr, ths []*thr)) *runRes
 			}
 		case <-time.After(hangAfter):
 			rr.Hang = fmt.Sprintf("goroutine %d did not reach a yield point within %s (operation %s)", t.id, hangAfter, t.jobs[t.opIdx].name)
+			// A goroutine that is parked inside the predicate of a Discover is inside user code.  If the loader runs the
+			// predicate with a lock held, t may just be waiting for that goroutine, which the scheduler keeps parked:
+			// let those goroutines go on.  Nobody moves: they block each other (the predicate asks the loader, and a
+			// reader does not get past a writer that waits).  Somebody moves: no deadlock, but the run is no longer
+			// under the control of the scheduler and is abandoned.
+			var cbs []*thr
+			for _, u := range ths {
+				if u != t && !u.done && u.site == "discover.callback" {
+					cbs = append(cbs, u)
+				}
+			}
+			if len(cbs) > 0 {
+				moved := false
+				for _, u := range cbs {
+					u.resume <- struct{}{}
+				}
+				select {
+				case <-reports:
+					moved = true
+				case <-time.After(confirmAfter):
+				}
+				if moved {
+					rr.Hang = ""
+					rr.Abandoned = fmt.Sprintf("goroutine %d (%s) waited for a goroutine that was parked inside the predicate of its Discover", t.id, t.jobs[t.opIdx].name)
+				} else {
+					rr.Hang += fmt.Sprintf("; %d goroutine(s) parked inside the predicate of a Discover were let go on and did not come back from asking the loader within %s either: the goroutines block each other", len(cbs), confirmAfter)
+				}
+			}
+		}
+		if rr.Abandoned != "" {
+			break
 		}
 		if rr.Hang != "" {
 			break
 		}
 	}
 	rr.Steps = len(rr.Sched)
-	if rr.Deadlock || rr.Hang != "" {
+	if rr.Deadlock || rr.Hang != "" || rr.Abandoned != "" {
 		unfinishedRuns++
 	}
 	for _, t := range ths {
@@ -309,6 +368,7 @@ func runJobs(jobs [][]job, pick policy, before func(t *thr, ths []*thr)) *runRes
 		rr.Overlap = append(rr.Overlap, t.overlapped)
 		rr.DoneAt = append(rr.DoneAt, t.doneAt)
 		rr.Windowed = append(rr.Windowed, t.windowed)
+		rr.CbOrder = append(rr.CbOrder, t.cbOrder)
 	}
 	return rr
 }
